@@ -177,6 +177,18 @@ pub fn gen_names(rng: &mut Rng, max: usize, gnu: bool) -> Vec<Vec<u8>> {
                 (0..l).map(|_| b'a' + rng.below(26) as u8).collect()
             }
         };
+        let mut base = base;
+        // the byte in front of the terminator takes boundary values now and then (control byte, DEL, first and last
+        // non-ASCII byte): the places where word-at-a-time scans and sign handling go wrong
+        if rng.chance(1, 10) {
+            let b = *rng.pick(&[0x01u8, 0x01, 0x7f, 0x80, 0xff]);
+            if rng.bool() || base.is_empty() {
+                base.push(b);
+            } else {
+                let l = base.len();
+                base[l - 1] = b;
+            }
+        }
         names.push(base);
     }
     names
